@@ -115,7 +115,16 @@ def _render_spec(spec: dict[str, Any]) -> Any:
             from liquid import CachingDictLoader, CachingFileSystemLoader  # noqa: F401
 
             loader = CachingDictLoader(dict(cfg.pop("templates")), auto_reload=cfg.pop("auto_reload", True), capacity=cfg.pop("capacity", 8))
+        babel_locale = cfg.pop("babel_default_locale", None)
         env = _ENVS[key] = drv.make_env(cfg, loader=loader)
+        if babel_locale:
+            # an application that configures the number / currency / date filters with its own default locale (documented constructor arguments)
+            from liquid.extra.filters.babel import Currency, DateTime, Number, Unit
+
+            env.add_filter("decimal", Number(default_locale=babel_locale))
+            env.add_filter("currency", Currency(default_locale=babel_locale))
+            env.add_filter("datetime", DateTime(default_locale=babel_locale))
+            env.add_filter("unit", Unit(default_locale=babel_locale))
     data = V.dec(spec["data"])
     if spec.get("get"):
         # the template comes from the environment's (caching) loader; `globals` given with a request belong to that request only
@@ -362,8 +371,21 @@ def spec(source: str, data: dict[str, Any], env: dict[str, Any] | None = None, i
     return {"source": source, "data": V.enc(data), "env": env or {}, "async": is_async}
 
 
+XT_TEMPLATES = {
+    "p": "[{{ v }}]", "base": "BASE<{% block b %}b0{% endblock %}|{% block c %}c0{% endblock %}>", "child": "{% extends 'base' %}{% block b %}b1{{ block.super }}{{ v }}{% endblock %}",
+    "mac": "{% macro rp x %}({% render 'p', v: x %}){% endmacro %}{% macro ip x %}{% include 'p' %}{% endmacro %}", "inc_in_render": "{% include 'p' %}!", "rchild": "{% render 'child' %}",
+}
+XT_SOURCES = [
+    "{% macro m x %}[{% render 'p', v: x %}]{% endmacro %}{% call m 1 %}", "{% render 'child' %}", "{% include 'child' %}", "{% render 'p', v: 2 %}", "{% include 'p' %}",
+    "{% macro m %}{% include 'p' %}{% endmacro %}{% call m %}", "{% include 'mac' %}{% call rp 1 %}{% call ip 2 %}", "{% with v: 3 %}{% render 'p' %}{% include 'p' %}{% endwith %}",
+    "{% block b %}x{{ block.super }}{% endblock %}", "{% for i in (1..2) %}{% render 'p', v: i %}{% endfor %}", "{% render 'inc_in_render' %}", "{% render 'p' %}{% include 'inc_in_render' %}",
+    "{% macro m %}{% render 'child' %}{% endmacro %}{% call m %}", "{% render 'rchild' %}", "{% macro m %}{% macro n %}{% render 'p', v: 5 %}{% endmacro %}{% call n %}{% endmacro %}{% call m %}",
+    "{% include 'child', v: 9 %}{% render 'child', v: 8 %}", "{% render 'p' for xs as v %}{% include 'p' for xs as v %}",
+]
+
+
 def gen_history_case(rng) -> dict[str, Any]:
-    aim = rng.choice(["date-equal-values", "date-equal-values", "date-markup-format", "lexer-parser-configs", "generated", "counters-and-cycles", "equal-distinct-through-filters", "equal-distinct-through-filters", "caching-loader-requests"])
+    aim = rng.choice(["tags-across-templates", "tags-across-templates", "locale-configurations", "date-equal-values", "date-equal-values", "date-markup-format", "lexer-parser-configs", "generated", "counters-and-cycles", "equal-distinct-through-filters", "equal-distinct-through-filters", "caching-loader-requests"])
     hist: list[dict[str, Any]] = []
     if aim == "date-equal-values":
         fmt = rng.choice(FMTS)
@@ -408,6 +430,23 @@ def gen_history_case(rng) -> dict[str, Any]:
             m = rng.choice(fam)
             hist.append(spec(src, {"v": m, "w": m}, e))
         probe = spec(src, {"v": pv, "w": pv}, e)
+    elif aim == "tags-across-templates":
+        # tags that set up state for the templates they reach (disabled tags, block stacks, macro registers): whatever one render leaves
+        # behind must not be there for the next one - in another template, another environment, or the same one
+        e1 = {"templates": XT_TEMPLATES, "extra": True}
+        e2 = {"templates": XT_TEMPLATES, "extra": True, "mode": "lax"}
+        e3 = {"extra": True, "mode": "warn", "templates": {k: v for k, v in XT_TEMPLATES.items() if k != "mac"}}
+        for _ in range(rng.randint(1, 8)):
+            hist.append(spec(rng.choice(XT_SOURCES), {"v": rng.choice([1, "x"]), "xs": [1, 2]}, rng.choice([e1, e1, e2, e3]), rng.random() < 0.3))
+        probe = spec(rng.choice(XT_SOURCES), {"v": 7, "xs": [1, 2]}, rng.choice([e1, e2, e3]), rng.random() < 0.3)
+    elif aim == "locale-configurations":
+        # environments whose locale-aware filters are configured differently, and locale values from the data that are well formed but
+        # unknown to Babel (they fall back to each filter's own default)
+        envs = [{"extra": True}, {"extra": True, "babel_default_locale": "de"}, {"extra": True, "babel_default_locale": "fr_CH"}]
+        srcs = ["{{ n | decimal }}", "{{ n | currency }}", "{{ n | decimal: group_separator: false }}", "{{ 12 | unit: 'length-kilometer' }}", "{{ d | datetime }}", "{{ n | money }}", "{{ '1.234,5' | decimal }}"]
+        for _ in range(rng.randint(1, 6)):
+            hist.append(spec(rng.choice(srcs), {"n": rng.choice([1234.5, 7]), "d": "2024-03-01 10:00", "locale": rng.choice(["tlh_QO", "xx_YY", "de", "en_GB"]), "input_locale": rng.choice(["tlh_QO", "de", "en_US"])}, rng.choice(envs)))
+        probe = spec(rng.choice(srcs), {"n": 1234.5, "d": "2024-03-01 10:00", "locale": rng.choice(["tlh_QO", "xx_YY", "de"]), "input_locale": rng.choice(["tlh_QO", "en_US"])}, rng.choice(envs))
     elif aim == "caching-loader-requests":
         # one environment with a caching loader: requests for the same names with / without per-request globals, then a probe request
         tpls = {"t1": "<t1>[g={{ g }}][h={{ h }}][e={{ eg }}]{% include 't2' %}", "t2": "<t2>[g={{ g }}][x={{ x }}]", "t3": "{% render 't2', x: g %}"}
